@@ -7,9 +7,11 @@ import (
 	"context"
 	"errors"
 	"fmt"
+	"io/fs"
 	"os"
 	"strings"
 	"sync/atomic"
+	"testing/fstest"
 	"time"
 
 	"github.com/tetratelabs/wazero"
@@ -100,10 +102,17 @@ var shapeNames = []string{"loop", "nested-loops", "br_table-reentry", "loop-arou
 // under it.  Set per scenario by runScenario.
 var guestWASI bool
 
+// guestFile (with guestWASI): the guest also imports path_open (function index 2) and opens a file before
+// it enters its cycle; the file belongs to a mount whose files fail to close.
+var guestFile bool
+
 // fx maps the function indexes written in the shapes (h=0, run=1, ...) to the real ones.
 func fx(i uint32) uint32 {
 	if guestWASI && i >= 1 {
-		return i + 1
+		i++
+		if guestFile {
+			i++
+		}
 	}
 	return i
 }
@@ -115,6 +124,10 @@ func buildGuest(shape int, yield bool, pad int) ([]byte, int) {
 	h := m.ImportFunc("env", "h", i32, nil)
 	if guestWASI {
 		m.ImportFunc("wasi_snapshot_preview1", "sched_yield", nil, i32)
+		if guestFile {
+			w32, w64 := wasmb.I32, wasmb.I64
+			m.ImportFunc("wasi_snapshot_preview1", "path_open", []wasmb.ValType{w32, w32, w32, w32, w32, w64, w64, w32, w32}, i32)
+		}
 	}
 	sites := 0
 	tick := func(c *wasmb.Code, tag int32) {
@@ -131,7 +144,13 @@ func buildGuest(shape int, yield bool, pad int) ([]byte, int) {
 			c.I32Const(int32(i)).Drop()
 		}
 	}
-	enter := func(c *wasmb.Code) { c.I32Const(0).Call(h) }
+	enter := func(c *wasmb.Code) {
+		if guestFile {
+			// path_open(3, "f") -> fd at 32; the result goes to the host with tag 0 (entered) either way
+			c.I32Const(3).I32Const(0).I32Const(16).I32Const(1).I32Const(0).I64Const(0).I64Const(0).I32Const(0).I32Const(32).Call(2).Drop()
+		}
+		c.I32Const(0).Call(h)
+	}
 	// function indices: h=0, then in order of AddFunc
 	switch shape {
 	case shLoop:
@@ -308,8 +327,32 @@ func buildGuest(shape int, yield bool, pad int) ([]byte, int) {
 		s.Br(0).End()
 		m.AddFunc(nil, nil, nil, s.B, "")
 	}
+	if guestFile {
+		if m.Mem == nil {
+			m.Mem = &wasmb.Limits{Min: 1}
+		}
+		m.Datas = append(m.Datas, wasmb.Data{Offset: wasmb.ConstI32(16), Bytes: []byte("f")})
+	}
 	return m.Encode(), sites
 }
+
+// failCloseFS: one file "f" whose Close fails (a network file system, a mount that went away).
+type failCloseFS struct{ fstest.MapFS }
+
+type failCloseFile struct{ fs.File }
+
+func (failCloseFile) Close() error { return errors.New("close failed: stale file handle") }
+
+func (f failCloseFS) Open(name string) (fs.File, error) {
+	file, err := f.MapFS.Open(name)
+	if err == nil && name == "f" {
+		guestFileOpened.Add(1)
+		return failCloseFile{file}, nil
+	}
+	return file, err
+}
+
+var guestFileOpened atomic.Int64
 
 // buildGuestB: the module "b" for the cross-module shapes: f loops itself
 // (shCrossModuleLoop) or calls g which loops (shCrossModuleNestedLoop).
@@ -467,8 +510,13 @@ func runScenario(t *tape.Tape, cfg sim.Config, listen bool) (res sim.Result) {
 	// system context while the module is closed under it
 	guestWASI = t.Chance(1, 3) && !listen // (the listened runs belong to C20: the WASI finding is recorded under C07)
 	defer func() { guestWASI = false }()
+	guestFile = guestWASI && t.Chance(1, 2)
+	defer func() { guestFile = false }()
 	if guestWASI {
 		res.Stat("probe.cycle_calls_wasi", 1)
+	}
+	if guestFile {
+		res.Stat("probe.guest_holds_a_file_that_fails_to_close", 1)
 	}
 	bin, sites := buildGuest(shape, yield, pad)
 	var binB []byte
@@ -651,7 +699,13 @@ func runScenario(t *tape.Tape, cfg sim.Config, listen bool) (res sim.Result) {
 			panic(err)
 		}
 	}
-	mod, err = rt.Instantiate(cctx, bin)
+	if guestFile {
+		guestFileOpened.Store(0)
+		mod, err = rt.InstantiateWithConfig(cctx, bin, wazero.NewModuleConfig().WithFSConfig(
+			wazero.NewFSConfig().WithFSMount(failCloseFS{fstest.MapFS{"f": &fstest.MapFile{Data: []byte("x")}}}, "/")))
+	} else {
+		mod, err = rt.Instantiate(cctx, bin)
+	}
 	if err != nil {
 		panic(fmt.Sprintf("harness: guest does not instantiate: %v", err))
 	}
@@ -706,6 +760,9 @@ func runScenario(t *tape.Tape, cfg sim.Config, listen bool) (res sim.Result) {
 		}()
 	}
 	_, callErr := mod.ExportedFunction("run").Call(callCtx)
+	if guestFile && guestFileOpened.Load() > 0 {
+		res.Stat("probe.call_stopped_while_the_guest_held_a_file_that_fails_to_close", 1)
+	}
 	close(callReturned)
 	if blockerTimedOut.Load() {
 		res.Fail("late-stop", "%+v: the call did not return within 3 s of its cancellation while Runtime.Close was inside another module's close notification (it returned %v only after that notification gave up waiting)", sc, firstLine(callErr))
